@@ -17,6 +17,9 @@ import RedisVerif.Model.NMap
                                   cursor of the reply is always 0
         DEL (≥ 2 keys)            grouped by `hash_key`, one `DEL` per group, integers summed
         EXISTS                    one `EXISTS [k]` per key on `hash_key(k)`, integers summed
+        RANDOMKEY                 (since fix 4d9bd05) the shards are asked in turn, the first non-nil
+                                  reply is returned, nil if every shard answers nil; the pinned
+                                  code (default arm → shard 0 only) is kept as `randomkeyPinned`
         anything else             `get_primary_key()`: `hash_key(first key)`; no key → shard 0
     * `fast_get/fast_set/pooled_fast_get/pooled_fast_set`     → `.fastGet/.fastSet` (routed by `hash_key_bytes`,
                                   executed by `get_direct/set_direct`)
@@ -197,8 +200,9 @@ structure Routes where
   /-- `hash_key_bytes(&[u8], N)`: `<[u8]>::hash` (length prefix then bytes) -/
   bytes : Key → Nat
 
-/-- the route used by every `hash_key` call site.  `fixed = false`: the pinned code (two
-    different hashes).  `fixed = true`: `hash_key` delegates to `hash_key_bytes(key.as_bytes())`. -/
+/-- the route used by every `hash_key` call site.  `fixed = true` (the code since fix 872671c, the default
+    everywhere): `hash_key` delegates to `hash_key_bytes(key.as_bytes())`.  `fixed = false`: the
+    pinned code (two different hashes), kept for the counterexamples. -/
 def Routes.gen (R : Routes) (fixed : Bool) (k : Key) : Nat := if fixed then R.bytes k else R.str k
 
 /-- routes given by a finite table `key ↦ (hash_key, hash_key_bytes)` (what the driver uses;
@@ -282,6 +286,18 @@ def routePrimary (R : Routes) (fixed : Bool) (st : Shards S.Val) (c : Cmd S) : S
   | some k => onShard E st (R.gen fixed k) c
   | none => onShard E st 0 c
 
+/-- the `Command::RandomKey` arm: `for shard in self.shards.iter() { let r = shard.execute(RandomKey);
+    if !matches!(r, BulkString(None)) { return r; } } BulkString(None)` -/
+def randomkeyFrom (st : Shards S.Val) : List Nat → Shards S.Val × Reply
+  | [] => (st, .rkey none)
+  | i :: is =>
+    let r := onShard E st i .randomkey
+    if r.2 = .rkey none then randomkeyFrom r.1 is else r
+
+/-- what the pinned code did with RANDOMKEY (no key → default arm → shard 0 only); not used by
+    `execN` any more, kept for `C03.randomkey_counterexample` -/
+def randomkeyPinned (st : Shards S.Val) : Shards S.Val × Reply := onShard E st 0 .randomkey
+
 /-- `ShardedActorState::execute` and the fast entry points, on `R.N` shards -/
 def execN (R : Routes) (fixed : Bool) (st : Shards S.Val) (c : Cmd S) : Shards S.Val × Reply :=
   match c with
@@ -317,7 +333,7 @@ def execN (R : Routes) (fixed : Bool) (st : Shards S.Val) (c : Cmd S) : Shards S
   | .single k op => routePrimary E R fixed st (.single k op)
   | .two k1 k2 op => routePrimary E R fixed st (.two k1 k2 op)
   | .msetnx kvs => routePrimary E R fixed st (.msetnx kvs)
-  | .randomkey => routePrimary E R fixed st .randomkey
+  | .randomkey => randomkeyFrom E st (List.range R.N)
 
 /-- single-key requests: what one client message to one shard actor carries (C02) -/
 def SingleKey : Cmd S → Bool
